@@ -386,8 +386,9 @@ theorem QClosed.expireWith (hc : QClosed now P) {s : St} (h : P s.timers) (r : D
     · rename_i en hf
       split
       · unfold Client.rearm
-        rcases rearmWith_cases s e.val (now - e.whenMs * nsPerMs + clampTimeout (en.remainder - (now - e.whenMs * nsPerMs)))
-            (q.insert now (clampTimeout (en.remainder - (now - e.whenMs * nsPerMs))) e.val) with
+        rcases rearmWith_cases s e.val (now - en.dueAt + clampTimeout (en.remainder - (now - en.dueAt)))
+            (now + clampTimeout (en.remainder - (now - en.dueAt)))
+            (q.insert now (clampTimeout (en.remainder - (now - en.dueAt))) e.val) with
           ⟨q', w, hins, hrw⟩ | ⟨q', key, w, hins, hrw⟩
         · rw [hrw]
           -- the state is frozen as it was before the iteration: its queue is the one before the poll
